@@ -141,6 +141,13 @@ func VictimMain(args []string) {
 		run = func() error { return srv.Create(size) }
 	case "Open":
 		run = func() error { return srv.Open() }
+	case "CloneInfo":
+		// the clone replica is open and marked rebuilding (its pre-state), mode untouched: sync.Task.CloneReplica calls
+		// UpdateCloneInfo right after the last file transfer
+		if err := srv.Open(); err != nil {
+			setupFail("open", err)
+		}
+		run = func() error { return srv.UpdateCloneInfo(f[1], f[2]) }
 	default:
 		if err := srv.Open(); err != nil {
 			setupFail("open", err)
